@@ -182,6 +182,12 @@ def build_ops(seed, tier, d, drv):
         me = suitio.model_create(drv, edesc, {})
         if "ok" not in me:
             continue
+        # the text files parse writes (YAML and JSON, with and without hierarchy): judged against the same operation in a fresh interpreter
+        for fmt in ("yaml", "json"):
+            for hier in (True, False):
+                oid = f"parsefile{j}_{fmt}_{int(hier)}"
+                ops.append({"id": oid, "kind": "parse_file", "bytes": me["ok"], "fmt": fmt, "hierarchy": hier})
+                expect[oid] = ("fresh",)
         eb = [1, 8, 16][j % 3]
         mc = drv.call({"op": "extract.cache", "eb": eb, "envelope": me["ok"], "deps": names})
         if "ok" in mc:
@@ -277,6 +283,7 @@ def run(tier: str, seed: int) -> int:
         # (a) one fresh interpreter per operation
         seeds = ["0", "1", "2", "random"]
         fresh_ops = ops if tier == "thorough" else ops[:: max(1, len(ops) // 24)]
+        fresh_ops = fresh_ops + [o for o in ops if expect[o["id"]] == ("fresh",) and o not in fresh_ops]
         procs = []
         for i, op in enumerate(fresh_ops):
             histories.append(("fresh", seeds[i % 4], [op], files_dir if i % 2 else other_cwd))
@@ -292,6 +299,10 @@ def run(tier: str, seed: int) -> int:
             return run_worker(hops, hs, cwd, d, str(h[0]))
         with ThreadPoolExecutor(max_workers=12) as ex:
             results = list(ex.map(go, list(enumerate(histories))))
+        # operations without a model: the result in a fresh interpreter is the reference
+        for (kind, hs, hops, cwd), out in zip(histories, results):
+            if kind == "fresh" and expect[hops[0]["id"]] == ("fresh",):
+                expect[hops[0]["id"]] = out.get(hops[0]["id"])
         for (kind, hs, hops, cwd), out in zip(histories, results):
             res.count("history:" + kind)
             res.count("hashseed:" + hs)
